@@ -69,6 +69,9 @@ pub fn ordering_family(names: &[String], thorough: bool) -> Vec<(String, bool)> 
     dup.extend(rev.iter().rev().cloned());
     out.push((dup.join(" "), false));
     out.push((format!("\"order\" {} ,, true & ( 12", rev.join(" , ")), false));
+    // a quoted comment that mentions the variables in ANOTHER order than the list below it
+    out.push((format!("\"first {} then the others\"\n{}\n", names.join(" and "), rev.join(" ")), false));
+    out.push((format!("{} \"not {}\"", rev.join("\n"), names.join(" ")), false));
     out.push((format!("exists {} # not {}", rev.join(" => "), rev[0]), false));
     let mut seen = vec![];
     out.retain(|(o, _)| {
